@@ -112,24 +112,65 @@ var walkFieldCodes = map[string]int{"Children": 0, "Body": 1, "Orelse": 2, "Hand
 // `param`, in source order, as codes of walkFieldCodes (a field outside that table is a problem).
 func rangedNodeFields(fd *ast.FuncDecl, param string) []int {
 	var out []int
+	add := func(sel string) {
+		c, known := walkFieldCodes[sel]
+		if !known {
+			fail("%s ranges over %s.%s, which the walk model (Clone/Walk.v) does not know", fd.Name.Name, param, sel)
+			return
+		}
+		out = append(out, c)
+	}
+	// param.<Field> selectors listed in a composite literal (a table of statement lists that is ranged over as a whole)
+	litFields := func(e ast.Expr) ([]string, bool) {
+		cl, ok := e.(*ast.CompositeLit)
+		if !ok || len(cl.Elts) == 0 {
+			return nil, false
+		}
+		var fs []string
+		for _, el := range cl.Elts {
+			se, ok := el.(*ast.SelectorExpr)
+			if !ok {
+				return nil, false
+			}
+			if id, ok := se.X.(*ast.Ident); !ok || id.Name != param {
+				return nil, false
+			}
+			fs = append(fs, se.Sel.Name)
+		}
+		return fs, true
+	}
+	tables := map[string][]string{}
+	ast.Inspect(fd, func(nd ast.Node) bool {
+		if as, ok := nd.(*ast.AssignStmt); ok && len(as.Lhs) == 1 && len(as.Rhs) == 1 {
+			if id, ok := as.Lhs[0].(*ast.Ident); ok {
+				if fs, ok := litFields(as.Rhs[0]); ok {
+					tables[id.Name] = fs
+				}
+			}
+		}
+		return true
+	})
 	ast.Inspect(fd, func(nd ast.Node) bool {
 		rs, ok := nd.(*ast.RangeStmt)
 		if !ok {
 			return true
 		}
-		se, ok := rs.X.(*ast.SelectorExpr)
-		if !ok {
-			return true
+		switch x := rs.X.(type) {
+		case *ast.SelectorExpr:
+			if id, ok := x.X.(*ast.Ident); ok && id.Name == param {
+				add(x.Sel.Name)
+			}
+		case *ast.Ident:
+			for _, f := range tables[x.Name] {
+				add(f)
+			}
+		case *ast.CompositeLit:
+			if fs, ok := litFields(x); ok {
+				for _, f := range fs {
+					add(f)
+				}
+			}
 		}
-		if id, ok := se.X.(*ast.Ident); !ok || id.Name != param {
-			return true
-		}
-		c, known := walkFieldCodes[se.Sel.Name]
-		if !known {
-			fail("%s ranges over %s.%s, which the walk model (Clone/Walk.v) does not know", fd.Name.Name, param, se.Sel.Name)
-			return true
-		}
-		out = append(out, c)
 		return true
 	})
 	return out
